@@ -110,6 +110,21 @@ def _ns_init(vc, v):
     vc.stash("ns.init", v)
 
 
+def _ns_havoc_heap(vc, v):
+    """the loop advances the destination's session counter: at an arbitrary iteration it is
+    an arbitrary (valid) session, the same in the storage under test and in the reference"""
+    w = vc.stashed("ns.world")
+    if w is None:
+        return
+    cur = (vc.bool("ns.session_flag_at_head"), vc.int("ns.session_id_at_head", 1, 0xFFFF))
+    w.sa.outgoing[v["addr"]] = cur
+    w.sb.outgoing[v["addr"]] = cur
+
+
+def _ns_modifies(vc, v):
+    return [v["self"].service.session_storage.outgoing]
+
+
 def _ns_head(vc, v, entering):
     vc.stash("ns.entering", entering)
     vc.stash("ns.head", v)
@@ -132,7 +147,7 @@ def _cyc_head(vc, v, entering):
 
 
 LOOPS = {
-    ("someip.service.SimpleEventgroup._notify_single", 0): {"havoc": {"msgbuf": _gen_bytearray}, "init": _ns_init, "head": _ns_head, "post": _ns_post},
+    ("someip.service.SimpleEventgroup._notify_single", 0): {"havoc": {"msgbuf": _gen_bytearray}, "havoc_heap": _ns_havoc_heap, "modifies": _ns_modifies, "init": _ns_init, "head": _ns_head, "post": _ns_post},
     ("someip.service.SimpleEventgroup._notify_all", "comp", 0): {"head": _na_head, "post": _na_post},
     ("someip.service.SimpleEventgroup.cyclic_notify", 0): {"head": _cyc_head},
 }
@@ -145,7 +160,7 @@ def _drive_single(vc, w, ep, events):
     current value -- with the next session id of this destination; (exit) one datagram with
     everything collected goes to the endpoint's address iff there is anything to send"""
     log = []
-    vc.arm_cut(S.SimpleEventgroup._notify_single, 0)
+    vc.stash("ns.world", w)
     o = vc.outcome(vc.drive, vc.body(S.SimpleEventgroup._notify_single)(w.group, ep, events, "test"), log)
     vc.check(o.kind != "raise", "_notify_single.never_raises")
     if vc.native:
